@@ -28,7 +28,8 @@ RULE = ('per seed one assignment item (random target graph incl. builtin subclas
         'non-trivial = a fault or crash fired, or the fault-free run mutated the target')
 ASSUMPTIONS = [
     'models/pathedit.py is the "corresponding plain Python nested item/attribute assignment"; builtin '
-    'subclasses are treated like the builtin they derive from',
+    'subclasses are treated like the builtin they derive from, except that the match set of a "*" step '
+    'is glom\'s own (keys handler before iterate: a list subclass with an instance __dict__ is object-style)',
     'collaborators fail atomically (a faulted __setitem__ does not half-write)',
     'wildcard assignments are not required to be atomic (the statement excludes them)',
 ]
@@ -305,7 +306,7 @@ def _describe(item):
                 for kk, vv in cur['v']:
                     if kk == arg or str(kk) == str(arg):
                         nxt = vv
-            elif op != 'x':
+            elif op not in ('x', 'X'):
                 try:
                     nxt = cur['v'][int(arg)]
                 except Exception:
